@@ -117,11 +117,12 @@ func genC05(t *rapid.T) E1Case {
 	}
 	// (the thorough tier generates some hundred times more cases: the stress is made that much rarer there, it costs
 	// a few hundred milliseconds of all cores)
-	connectOdds := 199
+	// (rapid prefers small magnitudes: a target in the upper half of the range, or the class comes ten times too often)
+	connectOdds, connectAt := 199, 113
 	if core.Thorough() {
-		connectOdds = 7999
+		connectOdds, connectAt = 7999, 5113
 	}
-	if rapid.IntRange(0, connectOdds).Draw(t, "connectstress") == 113 {
+	if rapid.IntRange(0, connectOdds).Draw(t, "connectstress") == connectAt {
 		// channels created at the same moment through one bootstrap (its defaults: sequence ids, the channel holder)
 		c.C05 = &C05Spec{ConnectStress: rapid.IntRange(2, 8).Draw(t, "connectors"), Rounds: 300}
 		return c
